@@ -738,7 +738,9 @@ func (r *Rng) cfgProfile(c *Ctx, ifaces []string) string {
 var cfgAddrs = []string{"1.1.1.1", "1.1.1.1:5353", "192.168.0.1", "1.1.1.1,8.8.8.8", "1.1.1.1, 8.8.4.4", "[2606:4700::1111]:53",
 	"https://dns.example/dns-query", "https://doh.example/q#1.2.3.4", "https://x.example/?a=b", "2606:4700::1111"}
 var cfgBadAddrs = []string{"notanip", "", "dns.example", "1.1.1.1,,8.8.8.8"}
-var cfgDomains = []string{"corp", "corp.", "lan.", "internal.example.com", "a.b", "corp", "with space", "."}
+var cfgDomains = []string{"corp", "corp.", "lan.", "internal.example.com", "a.b", "corp", "with space", ".",
+	// the same domains in other letter case: separate rules for the matcher (first one wins), separate lines in the file
+	"Corp", "CORP.", "Internal.Example.COM", "LAN."}
 
 func (r *Rng) cfgForwarder(c *Ctx) string {
 	addr := r.pickS(cfgAddrs)
